@@ -21,17 +21,21 @@ from .c13_bay import make_stiffener
 BF = 'compmech/stiffpanelbay/stiffpanelbay.py:StiffPanelBay.'
 
 
-def replay(route, n2d, fresh):
+def replay(route, n2d, fresh, geom='plate', flow='x'):
     from ..pyreplay import run_real
     script = '''
 import numpy as np
 from compmech.stiffpanelbay import StiffPanelBay
 from compmech.panel import Panel
 spb = StiffPanelBay()
-spb.a = 2.; spb.b = 1.; spb.m = 5; spb.n = 5; spb.model = 'plate_clt_donnell_bardell'
+curved = payload['geom'] == 'cpanel'
+spb.a = 2.; spb.b = 1.; spb.m = 5; spb.n = 5; spb.model = 'cpanel_clt_donnell_bardell' if curved else 'plate_clt_donnell_bardell'
+if curved:
+    spb.r = 3.
 spb.stack = [0, 90, 90, 0]; spb.plyt = 1.25e-4; spb.mu = 1.3e3
 spb.laminaprop = (142.5e9, 8.7e9, 0.28, 5.1e9, 5.1e9, 5.1e9)
-kw = dict(Mach=2., rho_air=1.2, V=600., speed_sound=300.) if payload['route'] == 'mach' else dict(beta=1000.)
+kw = dict(Mach=2., rho_air=1.2, V=600., speed_sound=300.) if payload['route'] == 'mach' else dict(beta=1000., gamma=(80. if curved else None))
+kw['flow'] = payload['flow']
 for k, v in kw.items():
     setattr(spb, k, v)
 spb.add_panel(y1=0, y2=0.3); spb.add_panel(y1=0.3, y2=spb.b)
@@ -43,7 +47,7 @@ try:
         spb.calc_k0(silent=True)
     kA = spb.calc_kA(silent=True)
     size = spb.get_size()
-    ref = Panel(a=2., b=1., m=5, n=5, stack=[0, 90, 90, 0], plyt=1.25e-4, laminaprop=spb.laminaprop, model='plate_clt_donnell_bardell')
+    ref = Panel(a=2., b=1., m=5, n=5, r=spb.r, stack=[0, 90, 90, 0], plyt=1.25e-4, laminaprop=spb.laminaprop, model=spb.model)
     for k, v in kw.items():
         setattr(ref, k, v)
     kr = ref.calc_kA(size=size, silent=True)
@@ -51,7 +55,7 @@ try:
 except Exception as e:
     out = {'raised': type(e).__name__ + ': ' + str(e)[:150]}
 '''
-    pay = dict(route=route, n2d=n2d, fresh=fresh)
+    pay = dict(route=route, n2d=n2d, fresh=fresh, geom=geom, flow=flow)
     r = run_real(script, pay)
     bad = str(r.get('raised', '')).split(':')[0] in ('AttributeError', 'ValueError', 'TypeError', 'AssertionError') or ('raised' not in r and r.get('bay_shape') != [r.get('bay_size')] * 2) or (r.get('max_difference_to_full_panel') or 0) > 1e-9
     return {'reproduced': bool(bad), 'input': pay, 'result': r, 'real_function': 'StiffPanelBay.calc_kA'}
@@ -118,7 +122,7 @@ def check(led):
             if out[0] != 'return':
                 e = out[1]
                 led.fail(name + '/no-exception', func, {'raises': e.tname, 'message': [str(x)[:120] for x in e.eargs]},
-                         signature='raise:%s:%s' % (e.tname, 'fresh' if fresh else 'warm'), replay=replay(route, n2d, fresh))
+                         signature='raise:%s:%s' % (e.tname, 'fresh' if fresh else 'warm'), replay=replay(route, n2d, fresh, geom, flow))
                 continue
             got, want, size = out[1]
             wg, tg = pycheck.terms_of(got)
@@ -136,7 +140,7 @@ def check(led):
                     continue
                 probs += pycheck.diff_kernel(g, w.f['fn'], w.f['model'], w.f['args'], w.f['panel'])
             if probs:
-                led.fail(name, func, {'differences': probs}, signature=';'.join(probs)[:100], replay=replay(route, n2d, fresh))
+                led.fail(name, func, {'differences': probs}, signature=';'.join(probs)[:100], replay=replay(route, n2d, fresh, geom, flow))
             else:
                 led.ok(name, func)
     led.solver_time('z3-feasibility', it.solver_time)
